@@ -43,7 +43,7 @@ check("C08", "exploration",
 # properties deliberately not claimed (reason); anything else missing from CHECKS is listed as "not built yet"
 NOT_APPLICABLE = {}
 
-HOOK_COMMITS = ["45bc492", "e36cf10", "3319613", "69852e4", "f4a53ae", "4b47353", "ce43167"]
+HOOK_COMMITS = ["45bc492", "e36cf10", "3319613", "69852e4", "f4a53ae", "0212cac", "4b47353", "ce43167"]
 
 check("C14", "model_checking",
       "CircularBuf: BFS to closure over {write,take,close} histories for every capacity<=6 units x write size 1..3 x read size, "
@@ -344,3 +344,23 @@ check("C07", "exploration",
            "evaluated by the three real helpers in both execution modes and compared with the integer function; sharings must be "
            "consistent and proofs must verify.",
       note="Widths 1..4 (5) exhaustively; 16/64-bit boundary operands.")
+
+check("C11", "exploration",
+      "the real Query::execute on every shard of a sharded TestWorld (malicious contexts, HPKE-encrypted length-delimited input) for "
+      "1, 2, 3 shards: 3 distinct reports in two base placements; one report duplicated with the copy placed on every shard, at the "
+      "front and at the back of that shard's input; both copies away from the original; a triple; two different duplicated reports; "
+      "and the duplicate-free inputs. Oracle per helper: the shard the duplicated report is routed to (first 16 bytes of the match-key "
+      "ciphertext, little-endian, modulo the shard count - computed from the raw bytes) fails with DuplicateBytes and the helper does "
+      "not complete; duplicate-free inputs are never answered with DuplicateBytes. Component arm: UniqueTagValidator on tag pairs "
+      "differing in each of the 128 bits, shard_picker against u128 arithmetic. distinct_nontrivial = inputs executed.",
+      [{"name": "duplicates", "config": "A", "test": "query::runner::verif::c11::run", "timeout": {"quick": 900, "thorough": 3600},
+        "require": {"any": {"duplicate-rejected": 20, "distinct-not-rejected": 3, "tag_validator_cases": 128}}}],
+      assumptions=["a duplicate-free query whose shards run dry hangs (known finding of C01); only the absence of a duplicate error is required there",
+                   "the exchange of tags between shards is schedule-independent (C19)"],
+      exhaustive=True, engine="E5 domain",
+      technique="bounded exhaustive enumeration of duplicate placements (report x shard of the copy x position) executed on the real "
+                "query runner over a sharded in-memory world",
+      text="Every placement of the second copy of every report, over 1-3 shards, is submitted to the real query entry point of all "
+           "three helpers; the shard the copies are routed to must reject with the duplicate-report error and the query must not "
+           "complete, while duplicate-free inputs must not be rejected for duplication.",
+      note="3 reports, <= 3 shards; routing targets are fixed by VERIF_SEED (ciphertext bytes).")
